@@ -133,7 +133,7 @@ theorem hit_same_state {P : Params κ} (hG : Good P) (cfg : Cfg) (t : Target) (o
     ∃ (r : Result κ) (ks : KeyState κ) (nc : Bool), s.cache.res (P.K (keyState t s.fs ohs)) = some r ∧
       r = mkRes nc ks (P.K ks) (P.run ks.cmd (viewOf ks)).outs ∧
       ks.label = t.label ∧ ks.cmd = t.cmd ∧ ks.inputs = t.inputs.map (fun p => (p, s.fs p)) ∧ ks.outs = t.outs ∧
-      ks.deps = ohs ∧ ks.fp = t.fp ∧ ks.plat = t.plat := by
+      ks.deps = t.hdeps.zip ohs ∧ ks.fp = t.fp ∧ ks.plat = t.plat := by
   unfold tryHit at hhit
   split at hhit
   · cases hhit
